@@ -142,6 +142,48 @@ class Interp:
             else:
                 self.tdf.__exit__(None, None, None)
             self.inside = self.write = self.armed = False
+        elif o == "limited-session":
+            # a whole write session during which the operating system does not let the file grow (RLIMIT_FSIZE; a full disk or a quota does
+            # the same): the mutation fails, closing the context may fail too - but the session is over, and so is its permission to write
+            if self.inside:
+                return
+            import resource
+            import signal
+
+            from .c07 import labelled_spec
+
+            t = self.tdf
+            absent = [x for x in ("events", "emg", "optical", "platCal") if reftdf.TYPE_CODE[x] not in self.live]
+            t.allow_write()
+            size = os.path.getsize(self.path)
+            old_sig = signal.signal(signal.SIGXFSZ, signal.SIG_IGN)
+            soft, hard = resource.getrlimit(resource.RLIMIT_FSIZE)
+            try:
+                t.__enter__()
+                resource.setrlimit(resource.RLIMIT_FSIZE, (size, hard))
+                try:
+                    if absent and self.N - len(self.live) > 0:
+                        t.add_block(specs.build(labelled_spec(absent[0], 1)), "does not fit")
+                except Exception:  # noqa
+                    pass
+                try:
+                    t.__exit__(None, None, None)
+                except Exception:  # noqa - closing flushes what could not be written
+                    pass
+            finally:
+                resource.setrlimit(resource.RLIMIT_FSIZE, (soft, hard))
+                signal.signal(signal.SIGXFSZ, old_sig)
+            h = getattr(t, "handler", None)
+            if h is not None and not h.closed:
+                try:
+                    h.close()
+                except Exception:  # noqa
+                    pass
+            self.inside = self.write = self.armed = False
+            self.had_write_context = self.entered_once = True
+            self.stats["write-sessions-under-a-size-limit"] = self.stats.get("write-sessions-under-a-size-limit", 0) + 1
+            self.resync()
+            return
         elif o == "new-object":
             if self.inside:
                 return
@@ -175,12 +217,17 @@ class Interp:
         from .c07 import labelled_spec
 
         def blk(name):
+            if k == 2 and name == "emg":
+                # a block of more than a MiB (a writer that makes room for big blocks ahead of time shows)
+                n_ = 300_000
+                return specs.build({"t": "emg", "format": 1, "frequency": 1000, "startTime": 0, "nSamples": n_, "_chmode": "explicit",
+                                    "signals": [{"label": "big", "channel": 0, "frames": [0x3F800000] * n_}]})
             return specs.build(labelled_spec(name, 1 + k % 2) if name not in ("calib",) else _minimal(name))
 
         if which == "add_block":
             if not (absent and free):
                 return
-            name = absent[k % len(absent)]
+            name = absent[k % len(absent)] if not (k == 2 and "emg" in absent) else "emg"
             fn = lambda: t.add_block(blk(name), "c08")  # noqa
         elif which == "remove_block":
             if not self.live:
@@ -377,6 +424,8 @@ MODES = {
     "other-object-armed": [{"op": "allow_write", "obj": 1}, {"op": "enter"}],
     "other-object-in-write-context": [{"op": "allow_write", "obj": 1}, {"op": "enter", "obj": 1}, {"op": "enter"}],
     "other-object-left-write-context": [{"op": "allow_write", "obj": 1}, {"op": "enter", "obj": 1}, {"op": "exit", "obj": 1}, {"op": "enter"}],
+    "plain-context-after-a-write-session-whose-close-failed": [{"op": "limited-session"}, {"op": "enter"}],
+    "no-context-after-a-write-session-whose-close-failed": [{"op": "limited-session"}],
     "double-allow_write-then-two-contexts": [{"op": "allow_write"}, {"op": "allow_write"}, {"op": "enter"}, {"op": "exit"}, {"op": "enter"}],
 }
 
@@ -395,7 +444,7 @@ def enum_matrix(tier):
     for iname, image in _images().items():
         for mname, script in MODES.items():
             for mut in MUTATORS:
-                for k in (0, 1):
+                for k in (0, 1) + ((2,) if mut in ("add_block", "set-emg") else ()):
                     yield {"init": image, "ops": list(script) + [{"op": "mutate", "which": mut, "k": k}], "_cell": f"{iname}|{mname}|{mut}"}
             for rd in READERS:
                 yield {"init": image, "ops": list(script) + [{"op": "read", "which": rd, "k": 1}], "_cell": f"{iname}|{mname}|reader:{rd}"}
